@@ -245,7 +245,7 @@ cleanup:
 
 static bool isMaxLevelValid(KSI_uint64_t val) {
 	/* Values under 1 and over 20 are discarded. */
-	return (val > 0 || val <= KSI_HA_CONF_MAX_LEVEL);
+	return (val > 0 && val <= KSI_HA_CONF_MAX_LEVEL);
 }
 
 static bool isAggrAlgoValid(KSI_uint64_t val) {
@@ -255,12 +255,12 @@ static bool isAggrAlgoValid(KSI_uint64_t val) {
 
 static bool isAggrPeriodValid(KSI_uint64_t val) {
 	/* Values under 0.1 and over 20 seconds are discarded. */
-	return (val > KSI_HA_CONF_MIN_PERIOD_MS || val <= KSI_HA_CONF_MAX_PERIOD_MS);
+	return (val >= KSI_HA_CONF_MIN_PERIOD_MS && val <= KSI_HA_CONF_MAX_PERIOD_MS);
 }
 
 static bool isMaxRequestsValid(KSI_uint64_t val) {
 	/* Values under 1 and over 16000 are discarded. */
-	return (val > 0 || val <= KSI_HA_CONF_MAX_REQUESTS);
+	return (val > 0 && val <= KSI_HA_CONF_MAX_REQUESTS);
 }
 
 static bool isCalendarTimeValid(KSI_uint64_t val) {
